@@ -167,6 +167,12 @@ def are_different(left, right):
     if left is None:
         return False
 
+    if isinstance(left, numbers.Integral):
+        # Integers (atom and residue numbers, charge groups, ...) are exact.
+        # The relative tolerance of `numpy.isclose` would make 200000 and
+        # 200001 compare equal.
+        return left != right
+
     if isinstance(left, numbers.Number):
         try:
             return not np.isclose(left, right, equal_nan=True)
